@@ -49,6 +49,8 @@ def key_uri(k, with_directives=True):
         base = "sim://bucket/" + k["res"]
     elif k["scheme"] == "https":
         base = "https://host.example/" + k["res"]
+    elif k["scheme"] == "chain":
+        base = "chain://bucket/" + k["res"]
     else:
         base = "file://" + SIM_REMOTE_DIR + "/" + k["res"]
     if k.get("comment"):
@@ -362,6 +364,7 @@ class World:
         fc._ACTIVE_FILE_CACHES.clear()
         self._dt_saved = [(m, interpose.patch_datetime_in(m)) for m in (co, rr, fc)]
         self.sim_resource = build_sim_resource(self)
+        self.chain_resource = build_sim_resource(self, prefix="chain://", chained=True)
 
     def _unpatch_modules(self):
         for m, saved in self._dt_saved:
@@ -379,7 +382,24 @@ class World:
         self.fc._ACTIVE_FILE_CACHES.clear()
 
     def _resources(self):
-        return [self.sim_resource, self.rr.RemoteResourceHTTPS(), self.rr.RemoteResourceLocal()]
+        return [self.sim_resource, self.rr.RemoteResourceHTTPS(), self.rr.RemoteResourceLocal(), self.chain_resource]
+
+    def chain_download(self, uri, filepath, NotFound):
+        """chain://: the object is obtained through the SECOND named cache (a 'raw' cache feeding a 'derived'
+        one): a nested request on another cache of the same process while this cache's request is in progress"""
+        res = uri.split("://", 1)[1].split("/", 1)[1]
+        self._note_fetch("chain", res.split("<<")[0], self._attribute_key(filepath, res))
+        if not (self.knobs.get("second_cache") and self.knobs.get("api") == "module" and self.fc.exists(OTHER_NAME)):
+            # no second cache in this configuration: the object comes straight from the store
+            return self.sim_download("sim://bucket/" + res, filepath, NotFound)
+        paths = self.fc.filepaths(["sim://bucket/" + res], OTHER_NAME)
+        if not paths:
+            raise NotFound("chained object %s not found" % uri)
+        with open(paths[0], "rb") as f:
+            data = f.read()
+        with open(filepath, "wb") as f:
+            f.write(data)
+        return True
 
     _MD5 = re.compile(r"[0-9a-f]{32}")
 
@@ -630,6 +650,14 @@ class World:
             out[p] = (kind, size, at, mt, data, ino, gen)
         return out
 
+    def other_limit(self):
+        try:
+            if self.knobs.get("second_cache") and self.fc.exists(OTHER_NAME):
+                return self.fc.get_cache(OTHER_NAME).config.max_size_bytes
+        except Exception:
+            pass
+        return None
+
     def snapshot_other(self):
         if not self.knobs.get("second_cache"):
             return None
@@ -651,7 +679,8 @@ class World:
             self.fc.set_directive_function("validate", "v", self._validate, CACHE_NAME)
             if self.knobs.get("second_cache"):
                 # another named cache of the same process, in its own directory
-                self.fc.create_cache(OTHER_NAME, OTHER_DIR, cache_size_GB=1.0, resources=self._resources())
+                self.fc.create_cache(OTHER_NAME, OTHER_DIR, cache_size_GB=self.knobs.get("other_max", 10**9) / 1e9,
+                                     resources=self._resources())
                 self.fc.set_directive_function("postprocess", "pp", self._pp, OTHER_NAME)
                 self.fc.set_directive_function("validate", "v", self._validate, OTHER_NAME)
         else:
@@ -905,6 +934,7 @@ class World:
         obs.post = self.snapshot_dir()
         obs.clock_end = max(self.clock.max_seen, self.clock.now)
         obs.other_post = self.snapshot_other()
+        obs.other_limit = self.other_limit()
         obs.busy_after = self.busy_workers()
         obs.unlinks = self.fs.unlink_log[obs.unlink_from:]
         obs.fetches = self.fetchlog.in_op(op["id"])
